@@ -334,7 +334,7 @@ func VfConfinement() {
 	seg := 3 + zzvf.Tier()
 	zzvf.Bound("segments_max", seg)
 	p, protected := vfConfinementWorld()
-	op := zzvf.Choice("operation", 8)
+	op := zzvf.Choice("operation", 18)
 	h := vfHostile("value", seg)
 	zzvf.Assume(vfHasDotSegment(h) || len(h) > 0 && h[0] == '/' || vfHasEncodedDots(h))
 	// bucket and key come from the request path, which the URL decoder refuses when it has dot segments (VfDecodeURL);
@@ -381,6 +381,51 @@ func VfConfinement() {
 		name = "HeadObject versionId"
 		id := "../../" + h
 		_, err = p.HeadObject(vfCtx(), &s3.HeadObjectInput{Bucket: vfStr("bkt"), Key: &k, VersionId: &id})
+	case 8:
+		name = "DeleteObjects key (from the request document)"
+		kk := h
+		_, err = p.DeleteObjects(vfCtx(), &s3.DeleteObjectsInput{Bucket: vfStr("bkt"), Delete: &types.Delete{Objects: []types.ObjectIdentifier{{Key: &kk}}}})
+	case 9:
+		name = "DeleteObjects versionId"
+		id := "../../" + h
+		_, err = p.DeleteObjects(vfCtx(), &s3.DeleteObjectsInput{Bucket: vfStr("bkt"), Delete: &types.Delete{Objects: []types.ObjectIdentifier{{Key: &k, VersionId: &id}}}})
+	case 10:
+		name = "PutObjectRetention versionId"
+		err = p.PutObjectRetention(vfCtx(), "bkt", k, "../../"+h, true, []byte("{}"))
+	case 11:
+		name = "GetObjectRetention versionId"
+		_, err = p.GetObjectRetention(vfCtx(), "bkt", k, "../../"+h)
+	case 12:
+		name = "PutObjectLegalHold versionId"
+		err = p.PutObjectLegalHold(vfCtx(), "bkt", k, "../../"+h, true)
+	case 13:
+		name = "GetObjectLegalHold versionId"
+		_, err = p.GetObjectLegalHold(vfCtx(), "bkt", k, "../../"+h)
+	case 14:
+		name = "ListParts uploadId"
+		id := "../../../" + h
+		mp := int32(10)
+		_, err = p.ListParts(vfCtx(), &s3.ListPartsInput{Bucket: vfStr("bkt"), Key: &k, UploadId: &id, PartNumberMarker: vfStr(""), MaxParts: &mp})
+	case 15:
+		name = "CompleteMultipartUpload uploadId"
+		id := "../../../" + h
+		pn, tag := int32(1), "e"
+		_, err = p.CompleteMultipartUpload(vfCtx(), &s3.CompleteMultipartUploadInput{Bucket: vfStr("bkt"), Key: &k, UploadId: &id,
+			MultipartUpload: &types.CompletedMultipartUpload{Parts: []types.CompletedPart{{PartNumber: &pn, ETag: &tag}}}})
+	case 16:
+		name = "UploadPartCopy source"
+		up, uerr := p.CreateMultipartUpload(vfCtx(), s3response.CreateMultipartUploadInput{Bucket: vfStr("bkt"), Key: &k})
+		zzvf.Assert(uerr == nil, "setup-upload")
+		zzvfos.M.Log = nil
+		src := "bkt/" + h
+		pn := int32(1)
+		_, err = p.UploadPartCopy(vfCtx(), &s3.UploadPartCopyInput{Bucket: vfStr("bkt"), Key: &k, UploadId: &up.UploadId, PartNumber: &pn, CopySource: &src,
+			CopySourceRange: vfStr(""), ExpectedBucketOwner: vfStr("caller")})
+	case 17:
+		name = "CopyObject source versionId"
+		dst := "copy"
+		src := "bkt/x?versionId=../../" + h
+		_, err = p.CopyObject(vfCtx(), s3response.CopyObjectInput{Bucket: vfStr("bkt"), Key: &dst, CopySource: &src, ExpectedBucketOwner: vfStr("caller")})
 	}
 	_ = err
 	zzvf.Reach("returned")
